@@ -86,7 +86,9 @@ impl Rig {
     pub fn new(cfg: &NetCfg) -> Result<Rig, ()> {
         crate::bus::root();
         let iface = format!("vc{}", IFACE.fetch_add(1, Ordering::SeqCst));
-        let bus = Bus::attach(&iface);
+        let mut bus = Bus::attach(&iface);
+        // the receive clone is drained one frame at a time; the other two clones never read
+        bus.impatient = true;
         let rt = tokio::runtime::Builder::new_current_thread().enable_all().build().unwrap();
         let conf: NetworkConfig = toml::from_str(&cfg.toml(&iface)).expect("network config parses");
         let built = {
